@@ -322,7 +322,7 @@ def run(tier, only=None):
     tlc.require_ok(res)
     R.add_tlc(res)
     depth = 2 if tier == "quick" else 3
-    behs, types = lawcheck.behaviours(R, ["Permute", "Mirror", "ScaleLen", "Translate", "ScaleV", "Reorder"], "{c \\in BaseClasses : c.nsurf >= 2}", depth, factors="{<<2, 1>>}", must_contain={"Permute"})
+    behs, types = lawcheck.behaviours(R, ["Permute", "Mirror", "ScaleLen", "Translate", "ScaleV", "Reorder"], "{c \\in BaseClasses : c.nsurf >= 2}", depth, factors="{<<2, 1>>}", must_contain={"Permute"}, keep=250 if tier == "quick" else 2500)
     lawcheck.replay_all(R, "C19", behs, limit=250 if tier == "quick" else 2500)
     n = 6 if tier == "quick" else 30
     for r in check_exc(pmap(_split_job, range(n))):
